@@ -367,3 +367,51 @@ def arg_fn(text, features):
         raise AnchorLost("execute_fsm_pipe: the argument binding is outside the transcription rules")
     return ("fn bind_arguments_and_run(fsm: FsmImplementation, fsm_pipe: &FsmPipe, input_decls: &Vec<ArgDecl>, args: &Vec<Value>, p: &Interpreter) -> (res: Option<Value>)\n"
             + ARG_ENS + "{\n  let mut call_env = Environment::new();\n" + b + "\n}\n")
+
+
+# ---------------------------------------------------------------------------------------------------------------------
+# validate_fsm_state_coverage: the start state must be a state that has an arm
+START_MODEL = """
+#[derive(Clone, Copy, PartialEq, Eq, Structural)]
+pub struct Name { pub id: u64 }
+pub struct Pattern { pub id: u64 }
+pub struct FsmImplementation { pub start: Pattern, pub id: u64 }
+pub struct FsmPipe { pub id: u64 }
+pub struct NameSet { pub names: Ghost<Set<Name>> }
+pub uninterp spec fn name_of(pt: Pattern) -> Option<Name>;      // state_name_from_pattern
+impl NameSet {
+  #[verifier::external_body]
+  pub fn is_empty(&self) -> (b: bool) ensures b == (self.names@ == Set::<Name>::empty()), { unimplemented!() }
+  #[verifier::external_body]
+  pub fn contains(&self, n: &Name) -> (b: bool) ensures b == self.names@.contains(*n), { unimplemented!() }
+}
+#[verifier::external_body]
+pub fn state_name_from_pattern(pt: &Pattern) -> (r: Option<Name>) ensures r == name_of(*pt), { unimplemented!() }
+"""
+
+
+def start_state_fn(text):
+    """(F) `validate_fsm_state_coverage` from `if state_names.is_empty()` to (not including) the loop over the arms: `X.ok_or_else(|| ..)?` -> `X?`, `return Err(..)` -> `return None`,
+    `return Ok(())` -> `return Some(true)` (accepted without further checks); the fragment ends with `Some(false)` (go on to the transition targets); `state_names` (collected above) is a parameter"""
+    sig, body = extract_fn(text, "validate_fsm_state_coverage")
+    b0 = re.sub(r"//[^\n]*", "", body).replace("\r", "")
+    a = find_code(b0, r"if\s+state_names\.is_empty\(\)\s*\{")
+    z = find_code(b0, r"for\s+arm\s+in\s+&fsm\.arms\s*\{")
+    if not a or not z or z.start() < a.start():
+        raise AnchorLost("validate_fsm_state_coverage: the start-state check not found")
+    b = b0[a.start():z.start()]
+    while True:
+        m = re.search(r"\s*\.ok_or_else\(", b)
+        if not m:
+            break
+        e = match_brace(b, m.end() - 1, "(", ")")
+        b = b[:m.start()] + b[e:]
+    b = re.sub(r"return\s+Ok\(\(\)\)\s*;", "return Some(true);", b)
+    b = err_to_none(b)
+    if re.search(r"\b(Ok|Err|MechError|ok_or_else)\b", b):
+        raise AnchorLost("validate_fsm_state_coverage: the start-state check is outside the transcription rules")
+    return ("fn start_state_check(fsm: &FsmImplementation, state_names: &NameSet, fsm_pipe: &FsmPipe) -> (res: Option<bool>)\n"
+            "  // a machine none of whose arms names a state is accepted as it is; otherwise the declared start state must be a named state that has an arm\n"
+            "  ensures state_names.names@ == Set::<Name>::empty() ==> res == Some(true),\n"
+            "    state_names.names@ != Set::<Name>::empty() ==> (res.is_some() <==> (name_of(fsm.start) matches Some(n) && state_names.names@.contains(n))) && res != Some(true),\n{\n"
+            + b + "\n  Some(false)\n}\n")
